@@ -30,7 +30,7 @@ done
 /venv/bin/python - "$P" "$X" "$base" "$demo_clean" "$demo_patched" "$res" <<'PY'
 import json,sys,os
 P,X,base,dc,dp,res=sys.argv[1:7]
-nf=f'/tmp/seedout-{P}/notes_IJ.md' if X in ('I','J') else f'/tmp/seedout-{P}/notes_GH.md' if X in ('G','H') else f'/tmp/seedout-{P}/notes_EF.md' if X in ('E','F') else (f'/tmp/seedout-{P}/notes_CD.md' if X in ('C','D') else f'/tmp/seedout-{P}/notes.md')
+nf=f'/tmp/seedout-{P}/notes_KL.md' if X in ('K','L') else f'/tmp/seedout-{P}/notes_IJ.md' if X in ('I','J') else f'/tmp/seedout-{P}/notes_GH.md' if X in ('G','H') else f'/tmp/seedout-{P}/notes_EF.md' if X in ('E','F') else (f'/tmp/seedout-{P}/notes_CD.md' if X in ('C','D') else f'/tmp/seedout-{P}/notes.md')
 notes=open(nf).read() if os.path.exists(nf) else ''
 meta={"property":P,"variant":X,"source":"fresh sub-agent given only the property text and a scratch worktree",
  "baseline_with_patch":base,"demo_exit_on_HEAD":int(dc),"demo_exit_with_patch":int(dp),
